@@ -62,7 +62,8 @@ func signingChainIssuer(key string, inter bool, issuer string) *tlsutil.SigningC
 	if c, ok := chains[k]; ok {
 		return c
 	}
-	c, err := tlsutil.NewSigningChainIssuer(key, inter, issuer)
+	sameSerial := strings.HasSuffix(issuer, "+sameserial")
+	c, err := tlsutil.NewSigningChainSerial(key, inter, strings.TrimSuffix(issuer, "+sameserial"), sameSerial)
 	if err != nil {
 		panic("HARNESS-ERROR: signing chain: " + err.Error())
 	}
@@ -297,6 +298,9 @@ func c08Gen(t *rapid.T) c08Case {
 	}
 	c.MultiLinePre = rapid.IntRange(0, 3).Draw(t, "multilinepre") == 0
 	c.Issuer = rapid.SampledFrom([]string{"p256", "p256", "p384", "p521"}).Draw(t, "issuer")
+	if c.Intermediate && rapid.IntRange(0, 3).Draw(t, "sameserial") == 0 {
+		c.Issuer += "+sameserial" // signer and issuing CA carry the same serial number (unique per issuer only)
+	}
 	// (a caller-chosen boundary is documented for one multipart level only: no part is added then)
 	if len(c.Spec.Parts) >= 1 && c.Spec.Charset == "" && c.Spec.Boundary == "" && rapid.IntRange(0, 3).Draw(t, "addalt") == 0 {
 		c.AddAltBetween = true
@@ -309,7 +313,7 @@ func c08Gen(t *rapid.T) c08Case {
 
 func TestC08(t *testing.T) {
 	rec := core.Rec("C08")
-	rec.Rule = "rapid draws message programs (0..3 parts, 0..2 embeds, 0..2 attachments in every combination incl. body-less and file-only messages; QP/base64/8bit per message, part and file; part and file descriptions incl. long ones; long file names; generic headers incl. long and non-ASCII values, a generic header without values, preformatted and multi-line preformatted headers, To/Cc *IgnoreInvalid lists that end up empty; contents in canonical CRLF form; chunked producers), signs them with an ECDSA P-256 or RSA-2048 key whose certificate was issued by a P-256, P-384 or P-521 CA (SHA-256/384/512 on the certificate), with or without an intermediate certificate, through SignWithKeypair or SignWithTLSCertificate (also with a full chain leaf + issuing CA + root, of which the issuing CA is the intermediate to carry), optionally with a middleware that rewrites the first body part or the subject on every render, and renders each message twice (one case in four after a first render into a sink that fails at a drawn offset; one in four with an alternative part added between the two renders). " +
+	rec.Rule = "rapid draws message programs (0..3 parts, 0..2 embeds, 0..2 attachments in every combination incl. body-less and file-only messages; QP/base64/8bit per message, part and file; part and file descriptions incl. long ones; long file names; generic headers incl. long and non-ASCII values, a generic header without values, preformatted and multi-line preformatted headers, To/Cc *IgnoreInvalid lists that end up empty; contents in canonical CRLF form; chunked producers), signs them with an ECDSA P-256 or RSA-2048 key whose certificate was issued by a P-256, P-384 or P-521 CA (SHA-256/384/512 on the certificate), with or without an intermediate certificate (one time in four with the same serial number as the signer certificate, which is legal: serial numbers are unique per issuer), through SignWithKeypair or SignWithTLSCertificate (also with a full chain leaf + issuing CA + root, of which the issuing CA is the intermediate to carry), optionally with a middleware that rewrites the first body part or the subject on every render, and renders each message twice (one case in four after a first render into a sink that fails at a drawn offset; one in four with an alternative part added between the two renders). " +
 		"Oracle (own MIME reader + own CMS SignedData verifier on encoding/asn1 and crypto/*): top level multipart/signed with protocol=application/pkcs7-signature and micalg=sha-256 and exactly two parts; SHA-256 of the first part exactly as emitted between the delimiters == the message-digest attribute; signed attributes in DER SET order with content-type id-data; signature valid under the carried signer certificate, which is the one given; intermediate carried iff given; the signed entity's leaves match the model; the second render verifies too and carries the same signed entity. " +
 		"TestC08Conc: 2..8 goroutines each build, sign (one shared *tls.Certificate through SignWithTLSCertificate, or the shared key pair) and render 2..12 fresh messages at the same time (12 such cases per process in quick, 150 in thorough); every output must be a verifying multipart/signed message of its own content. Non-trivial: every case (each exercises the double render). Distinct by (shape key, key type, intermediate, API, header features)."
 	rec.Assumptions = []string{"contents are generated in canonical CRLF form (the property's domain)", "certificate chain validation up to a trust anchor is not part of the property"}
